@@ -321,6 +321,10 @@ func (d *Def) getMethodNameAndSetIsStatic(
 		return "", err
 	}
 
+	if t.IsNewLineIdentifier() {
+		return "", fmt.Errorf("method name is missing")
+	}
+
 	if t.IsTargetIdentifier("self") {
 		ctx.IsDefineStatic = true
 
